@@ -552,7 +552,9 @@ PROP_KINDS = {
             "parent_without_child", "child_without_parent", "endpoint_missing", "endpoint_extra",
             "consumer_disagrees_valid", "consumer_disagrees_modified", "consumer_disagrees_lmt", "consumer_disagrees_value",
             "consumer_disagrees_delta_readable", "consumer_disagrees_delta",
-            "not_notified", "spurious_notify", "notify_count", "cycle_missing", "write_throws", "harness_error"},
+            "not_notified", "spurious_notify", "notify_count", "cycle_missing", "write_throws", "harness_error",
+            # genuine deviations of the unchanged tree, listed in known_findings.json (docs/notes-track.md F1-F3)
+            "consumer_after_invalidate_modified", "consumer_after_invalidate_lmt", "consumer_stale_delta", "whole_write_throws"},
 }
 
 
